@@ -10,6 +10,8 @@ import (
 
 // Gen draws everything a run needs from one PRNG.
 type Gen struct {
+	hugeRef    int // pool entry above 4096 vertices, or 0 if none
+	focusBase  map[string]*Op
 	focusShare bool
 	distinctY  bool           // generic position: no two vertices of the run's inputs share a Y
 	usedY      map[int64]bool
@@ -34,6 +36,7 @@ type palette struct {
 	precs  []int64
 	rects  [][4]int64
 	ddiv   float64 // D inputs = integer inputs / ddiv
+	steps  []int64 // step counts of explicit ellipses
 }
 
 func newGen(seed uint64, run int, big bool) *Gen {
@@ -69,6 +72,7 @@ func (g *Gen) initPalette() {
 	}
 	g.pal.rects = append(g.pal.rects, [4]int64{-s / 2, -s / 2, s / 2, s / 2}, [4]int64{0, 0, 0, 0}, [4]int64{-2 * s, -2 * s, 2 * s, 2 * s})
 	g.pal.ddiv = []float64{1, 10, 100, 1000}[g.n(4)]
+	g.pal.steps = []int64{int64(g.n(40)), int64(3 + g.n(200)), 0}
 }
 
 // ---------------------------------------------------------------------------
@@ -460,6 +464,15 @@ func (g *Gen) initPool() {
 	if g.p(0.15) {
 		g.addPoolSet(g.manyLongSet(), g.p(0.4))
 	}
+	if g.p(0.04) {
+		// a job above 4096 vertices (limits on "large" jobs are only reached by these)
+		var huge clip.Paths64
+		for i, n := 0, g.rng(50, 70); i < n; i++ {
+			huge = append(huge, g.famRadial(g.rng(80, 100)&^1, 1+g.n(2)))
+		}
+		g.spreadY(huge)
+		g.hugeRef = g.addPoolSet(huge, g.p(0.4))
+	}
 }
 
 func (g *Gen) pick(isD bool, open int, small int) int {
@@ -676,13 +689,13 @@ func (g *Gen) fnOpNamed(name string) Op {
 		op.I = []int64{int64(g.f(-S, S)), int64(g.f(-S, S))}
 		op.A = []int{g.pick(false, 0, -1), g.pick(false, 0, -1)}
 	case "Ellipse64":
-		op.I = []int64{int64(g.f(-S, S)), int64(g.f(-S, S)), int64(g.n(40))}
+		op.I = []int64{int64(g.f(-S, S)), int64(g.f(-S, S)), g.pickI(g.pal.steps)}
 		op.F = []float64{g.f(-1, S/2), g.f(-1, S/2)}
 		if g.p(0.08) {
 			op.F[0] = 0 // trivial input: empty result
 		}
 	case "EllipseD":
-		op.I = []int64{int64(g.n(40))}
+		op.I = []int64{g.pickI(g.pal.steps)}
 		op.F = []float64{g.f(-1, S/2), g.f(-1, S/2), g.f(-S, S), g.f(-S, S)}
 		if g.p(0.08) {
 			op.F[0] = 0
@@ -950,6 +963,50 @@ func (g *Gen) focusOps(kind string, slot int) []Op {
 		return g.offsetHistory(slot, false)
 	}
 	op := g.fnOpNamed(kind)
+	// near-duplicates: the first focus call of a run is the base; later ones
+	// are copies of it with one or two arguments drawn again, so that the
+	// overlapping calls agree on most arguments and differ in a few
+	if g.focusBase == nil {
+		g.focusBase = map[string]*Op{}
+	}
+	if base, ok := g.focusBase[kind]; !ok {
+		cp := op
+		g.focusBase[kind] = &cp
+	} else if g.p(0.7) {
+		fresh := op
+		op = *base
+		op.I = append([]int64{}, base.I...)
+		op.F = append([]float64{}, base.F...)
+		op.A = append([]int{}, base.A...)
+		op.P = append([]string{}, base.P...)
+		for k, n := 0, g.rng(0, 2); k < n; k++ {
+			switch g.n(3) {
+			case 0:
+				if len(op.I) > 0 && len(fresh.I) == len(op.I) {
+					i := g.n(len(op.I))
+					op.I[i] = fresh.I[i]
+				}
+			case 1:
+				if len(op.F) > 0 && len(fresh.F) == len(op.F) {
+					i := g.n(len(op.F))
+					op.F[i] = fresh.F[i]
+				}
+			default:
+				if len(op.A) > 0 && len(fresh.A) == len(op.A) {
+					i := g.n(len(op.A))
+					op.A[i] = fresh.A[i]
+				}
+			}
+		}
+		if kind == "InflatePathsD" || kind == "InflatePaths64" {
+			op.I[2] |= fresh.I[2] & 4 // whether a precision option is passed follows the fresh draw
+			if g.p(0.5) && len(op.I) > 3 {
+				op.I[3] = fresh.I[3]
+				op.I[2] |= 4
+			}
+		}
+		return []Op{op}
+	}
 	// with some probability all focus calls of a run work on the same, largest
 	// input of the right type (shared read-only input; size thresholds)
 	if g.focusShare && len(op.A) > 0 && op.A[0] >= 0 && op.A[0] < len(g.meta) {
